@@ -29,7 +29,8 @@ func init() {
 		},
 		Rule: "concurrent-api: 2-3 simulated tasks issue AddReadiness / OnReady / status requests (ReadyzHandler into a response recorder) over 1-3 component names incl. re-registration, <=12 operations, " +
 			"interleaved at lock granularity (baseline, single-preemption sweep, PCT, random); every response must be internally consistent and the recorded invoke/return history must be linearizable " +
-			"against a map model (porcupine); wait-for-ready: registrations and ready-marks separated by fake-clock advances, WaitForReady may complete only at an instant at which the model is ready, and yields ctx.Err() when cancelled first; " +
+			"against a map model (porcupine); wait-for-ready: registrations and ready-marks separated by fake-clock advances, one to three waiters each with its own context (started and cancelled at taped steps); WaitForReady may complete only at an instant at which the model is ready, " +
+			"yields its own context's error (and only then an error) when cancelled first, and does complete once everything has been ready for three polling intervals; " +
 			"non-trivial = at least one preemption and one status request overlapping another task's update (concurrent) / a not-ready phase before completion (wait); distinct = distinct (program hash, schedule hash)",
 		Quick: 80 * c18Group, Thorough: 4000 * c18Group,
 		Race: true, RaceQuick: 4 * c18Group, RaceThorough: 200 * c18Group,
@@ -320,28 +321,60 @@ func scnC18Concurrent(rc *RunCtx) {
 	}
 }
 
+type c18Waiter struct {
+	name        string
+	cancel      context.CancelFunc
+	startStep   int // -1: before the first step
+	cancelStep  int // -1: never
+	done        *doneFlag
+	startedAt   time.Duration
+	cancelledAt time.Duration
+	doneAt      time.Duration
+	started     bool
+	cancelled   bool
+}
+
 func scnC18Wait(rc *RunCtx) {
 	t := rc.Spec
 	h := health.NewHealth()
 	model := map[string]bool{}
 	names := []string{"a", "b", "c"}
-	ctx, cancel := context.WithCancel(context.Background())
-	rc.Cleanup(cancel)
-	done := &doneFlag{}
-	var doneAt time.Duration
-	cancelFirst := t.Choose(4, "cancel") == 0
 	// initial registrations before waiting
 	nInit := t.Choose(3, "ninit")
 	for i := 0; i < nInit; i++ {
 		h.AddReadiness(names[i])
 		model[names[i]] = false
 	}
-	rc.Sim.Spawn("waiter", func() {
-		ch := h.WaitForReady(ctx)
-		err, open := simrt.ChanRecv2(ch, "waiter.recv")
-		_ = open
-		done.set(err)
-	})
+	nsteps := 2 + t.Choose(8, "nsteps")
+	// one to three waiters, each with its own context; the first starts before the first step,
+	// later ones at a taped step; each may be cancelled at a taped step after its start
+	nw := 1 + t.Choose(3, "waiters")
+	var ws []*c18Waiter
+	for i := 0; i < nw; i++ {
+		w := &c18Waiter{name: fmt.Sprintf("waiter%d", i), startStep: -1, cancelStep: -1, done: &doneFlag{}}
+		if i > 0 {
+			w.startStep = t.Choose(nsteps, "start.at")
+		}
+		if t.Choose(4, "cancel") == 0 {
+			lo := w.startStep
+			if lo < 0 {
+				lo = 0
+			}
+			w.cancelStep = lo + t.Choose(nsteps-lo, "cancel.at")
+		}
+		ws = append(ws, w)
+	}
+	start := func(w *c18Waiter) {
+		ctx, cancel := context.WithCancel(context.Background())
+		rc.Cleanup(cancel)
+		w.cancel, w.started, w.startedAt = cancel, true, rc.SimNow()
+		rc.Sim.Spawn(w.name, func() {
+			ch := h.WaitForReady(ctx)
+			err, _ := simrt.ChanRecv2(ch, "waiter.recv")
+			w.done.set(err)
+		})
+	}
+	start(ws[0])
 	rc.Sim.Policy = simrt.PolicyRunToBlock
 	modelReady := func() bool {
 		for _, v := range model {
@@ -357,28 +390,46 @@ func scnC18Wait(rc *RunCtx) {
 	}
 	var phases []phase
 	notReadySeen := false
-	nsteps := 2 + t.Choose(8, "nsteps")
 	var desc []string
-	cancelAt := -1
-	if cancelFirst {
-		cancelAt = t.Choose(nsteps, "cancel.at")
-	}
-	for i := 0; i < nsteps && !done.v; i++ {
-		if i == cancelAt {
-			cancel()
-			desc = append(desc, "cancel")
-			rc.Sim.Count("ctx.cancel")
-		} else {
-			n := names[t.Choose(len(names), "name")]
-			if t.Choose(2, "op") == 0 || !hasKey(model, n) {
-				h.AddReadiness(n)
-				model[n] = false
-				desc = append(desc, "add("+n+")")
-			} else {
-				h.OnReady(n)
-				model[n] = true
-				desc = append(desc, "ready("+n+")")
+	allDone := func() bool {
+		for _, w := range ws {
+			if !w.started || !w.done.v {
+				return false
 			}
+		}
+		return true
+	}
+	note := func() {
+		for _, w := range ws {
+			if w.started && w.done.v && w.doneAt == 0 {
+				w.doneAt = rc.SimNow()
+			}
+		}
+	}
+	for i := 0; i < nsteps && !allDone(); i++ {
+		for _, w := range ws {
+			if w.startStep == i && !w.started {
+				start(w)
+				desc = append(desc, "start("+w.name+")")
+			}
+		}
+		for _, w := range ws {
+			if w.cancelStep == i && w.started && !w.cancelled {
+				w.cancel()
+				w.cancelled, w.cancelledAt = true, rc.SimNow()
+				desc = append(desc, "cancel("+w.name+")")
+				rc.Sim.Count("ctx.cancel")
+			}
+		}
+		n := names[t.Choose(len(names), "name")]
+		if t.Choose(2, "op") == 0 || !hasKey(model, n) {
+			h.AddReadiness(n)
+			model[n] = false
+			desc = append(desc, "add("+n+")")
+		} else {
+			h.OnReady(n)
+			model[n] = true
+			desc = append(desc, "ready("+n+")")
 		}
 		ready := modelReady()
 		if !ready {
@@ -387,34 +438,69 @@ func scnC18Wait(rc *RunCtx) {
 		from := rc.SimNow()
 		d := time.Duration(100*(1+t.Choose(12, "advance"))) * time.Millisecond
 		desc = append(desc, fmt.Sprintf("advance(%v)", d))
-		for el := time.Duration(0); el < d && !done.v; el += 100 * time.Millisecond {
+		for el := time.Duration(0); el < d && !allDone(); el += 100 * time.Millisecond {
 			time.Sleep(100 * time.Millisecond)
-			rc.Sim.RunUntil(func() bool { return done.v }, 5000)
-			if done.v && doneAt == 0 {
-				doneAt = rc.SimNow()
-			}
+			rc.Sim.RunUntil(allDone, 5000)
+			note()
 		}
 		phases = append(phases, phase{from, rc.SimNow(), ready})
 	}
+	end := rc.SimNow()
 	rc.CaseKey(strings.Join(desc, ","), nInit)
 	rc.R.NonTrivial = notReadySeen
-	rc.R.Sample = map[string]any{"initial_registrations": nInit, "steps": desc, "completed": done.v, "error": fmt.Sprint(done.err), "completed_at_ms": doneAt.Milliseconds()}
-	if !done.v {
-		return
+	var wsum []map[string]any
+	for _, w := range ws {
+		wsum = append(wsum, map[string]any{"name": w.name, "started": w.started, "cancelled": w.cancelled, "completed": w.done.v, "error": fmt.Sprint(w.done.err), "completed_at_ms": w.doneAt.Milliseconds()})
 	}
-	if done.err != nil {
-		if cancelAt < 0 || done.err != context.Canceled {
-			rc.Fail("C18", "wait-error", "WaitForReady yielded %v although the context was not cancelled", done.err)
+	rc.R.Sample = map[string]any{"initial_registrations": nInit, "steps": desc, "waiters": wsum}
+	if len(ws) > 1 {
+		rc.Sim.Count("wait.multiple-waiters")
+	}
+	interval := health.DefaultReadyCheckInterval
+	for _, w := range ws {
+		if !w.started {
+			continue
 		}
-		return
-	}
-	// completed without error: the model must have been ready at that instant
-	for _, p := range phases {
-		if doneAt > p.from && doneAt <= p.to {
-			if !p.ready {
-				rc.Fail("C18", "wait-completed-while-not-ready", "WaitForReady completed at %v while a registered component was not ready (steps: %v)", doneAt, desc)
+		if !w.done.v {
+			if w.cancelled && end-w.cancelledAt >= 100*time.Millisecond {
+				rc.Fail("C18", "wait-ignores-cancellation", "%s: its context was cancelled at %v but WaitForReady had yielded nothing by %v (steps: %v)", w.name, w.cancelledAt, end, desc)
+				return
 			}
-			return
+			// bounded liveness: ready without interruption for three polling intervals
+			var run time.Duration
+			for _, p := range phases {
+				if p.to <= w.startedAt || !p.ready {
+					run = 0
+					continue
+				}
+				f := p.from
+				if f < w.startedAt {
+					f = w.startedAt
+				}
+				run += p.to - f
+				if run >= 3*interval {
+					rc.Fail("C18", "wait-never-completes", "%s: every registered component was ready for %v (polling interval %v) but WaitForReady did not complete (steps: %v)", w.name, run, interval, desc)
+					return
+				}
+			}
+			continue
+		}
+		if w.done.err != nil {
+			if !w.cancelled || w.done.err != context.Canceled {
+				rc.Fail("C18", "wait-error", "%s: WaitForReady yielded %v although its context was not cancelled (steps: %v)", w.name, w.done.err, desc)
+				return
+			}
+			continue
+		}
+		// completed without error: the model must have been ready at that instant
+		for _, p := range phases {
+			if w.doneAt > p.from && w.doneAt <= p.to {
+				if !p.ready {
+					rc.Fail("C18", "wait-completed-while-not-ready", "%s: WaitForReady completed at %v while a registered component was not ready (steps: %v)", w.name, w.doneAt, desc)
+					return
+				}
+				break
+			}
 		}
 	}
 }
